@@ -416,3 +416,83 @@ Proof.
     destruct ms; [congruence|]. reflexivity.
   - apply Forall_forall. intros w Hin. apply in_map_iff in Hin as (m & <- & Hin). rewrite Forall_forall in Hall. cbn [wf_line]. apply wfl_wf. apply Hall. exact Hin.
 Qed.
+
+(* ------------------------------------------------------------------------------------------------ totality (C01) *)
+Local Open Scope nat_scope.
+Lemma unexpected_not_fuel {A} ts : @unexpected A ts <> Err PFuel.
+Proof. destruct ts as [|[t|e] r]; discriminate. Qed.
+Lemma scoped_rest_props : forall n ts, length ts <= n ->
+  scoped_rest ts <> Err PFuel /\ forall ids r, scoped_rest ts = Ok (ids, r) -> length r <= length ts.
+Proof.
+  induction n as [|n IH]; intros ts Hn.
+  - destruct ts; [|cbn in Hn; lia]. split; [discriminate|intros ids r H; inversion H; subst; lia].
+  - destruct ts as [|[t|e] ts']; try (split; [discriminate|intros ids r H; inversion H; subst; lia]).
+    destruct t; try (split; [discriminate|intros ids r H; inversion H; subst; lia]).
+    cbn [scoped_rest]. destruct ts' as [|[t2|e2] ts'']; try (split; [apply unexpected_not_fuel|intros ids r H; discriminate H]).
+    destruct t2; try (split; [apply unexpected_not_fuel|intros ids r H; discriminate H]).
+    cbn [length] in Hn. destruct (IH ts'' ltac:(lia)) as [N S].
+    destruct (scoped_rest ts'') as [[ids' r']|e] eqn:E; cbn [rbind fst snd].
+    + split; [discriminate|]. intros ids r H; inversion H; subst. specialize (S ids' r eq_refl). cbn [length]. lia.
+    + split; [congruence|discriminate].
+Qed.
+Lemma scoped_id_props ts : scoped_id ts <> Err PFuel /\ forall g ids r, scoped_id ts = Ok (g, ids, r) -> length r < length ts.
+Proof.
+  unfold scoped_id. destruct ts as [|[t|e] ts']; try (split; [apply unexpected_not_fuel|intros g ids r H; discriminate H]).
+  destruct t; try (split; [apply unexpected_not_fuel|intros g ids r H; discriminate H]).
+  - destruct (scoped_rest_props (length ts') ts' (le_n _)) as [N S].
+    destruct (scoped_rest ts') as [[ids' r']|e] eqn:E; cbn [rbind fst snd].
+    + split; [discriminate|]. intros g ids r H; inversion H; subst. specialize (S ids' r eq_refl). cbn [length]. lia.
+    + split; [congruence|discriminate].
+  - destruct ts' as [|[t2|e2] ts'']; try (split; [apply unexpected_not_fuel|intros g ids r H; discriminate H]).
+    destruct t2; try (split; [apply unexpected_not_fuel|intros g ids r H; discriminate H]).
+    destruct (scoped_rest_props (length ts'') ts'' (le_n _)) as [N S].
+    destruct (scoped_rest ts'') as [[ids' r']|e] eqn:E; cbn [rbind fst snd].
+    + split; [discriminate|]. intros g ids r H; inversion H; subst. specialize (S ids' r eq_refl). cbn [length]. lia.
+    + split; [congruence|discriminate].
+Qed.
+Lemma comps_total : forall fuel ts, length ts < fuel -> comps fuel ts <> Err PFuel /\ forall m r, comps fuel ts = Ok (m, r) -> length r <= length ts.
+Proof.
+  induction fuel as [|f IH]; intros ts Hf; [lia|]. cbn [comps].
+  destruct ts as [|[t|e] ts']; try (split; [discriminate|intros m r H; inversion H; subst; lia]).
+  destruct t; try (split; [discriminate|intros m r H; inversion H; subst; lia]).
+  - cbn [length] in Hf. destruct (IH ts' ltac:(lia)) as [N S]. destruct (comps f ts') as [[m r]|e] eqn:E; cbn [rbind fst snd].
+    + split; [discriminate|]. intros m' r' H; inversion H; subst. specialize (S m r' eq_refl). cbn [length]. lia.
+    + split; [congruence|discriminate].
+  - destruct ts' as [|[t2|e2] ts'']; try (split; [apply unexpected_not_fuel|intros m r H; discriminate H]).
+    destruct t2; try (split; [apply unexpected_not_fuel|intros m r H; discriminate H]).
+    destruct (scoped_id_props ts'') as [N2 S2].
+    destruct (scoped_id ts'') as [[[g ids] r2]|e] eqn:E; cbn [rbind snd fst]; [|split; [congruence|discriminate]].
+    specialize (S2 g ids r2 eq_refl).
+    destruct r2 as [|[t3|e3] r3]; try (split; [apply unexpected_not_fuel|intros m r H; discriminate H]).
+    destruct t3; try (split; [apply unexpected_not_fuel|intros m r H; discriminate H]).
+    cbn [length] in *. destruct (IH r3 ltac:(lia)) as [N S]. destruct (comps f r3) as [[m r]|e] eqn:E3; cbn [rbind fst snd].
+    + split; [discriminate|]. intros m' r' H; inversion H; subst. specialize (S m r' eq_refl). lia.
+    + split; [congruence|discriminate].
+Qed.
+Lemma expect_newline_not_fuel {A} r (a : A) : expect_newline r a <> Err PFuel.
+Proof. unfold expect_newline. destruct r as [|[t|e] r']; try discriminate. destruct t; discriminate. Qed.
+Lemma parse_line_total ts : parse_line ts <> Err PFuel.
+Proof.
+  assert (C : forall ts0 (k : message * list item -> res pline), (forall p, k p <> Err PFuel) -> rbind (comps (S (length ts0)) ts0) k <> Err PFuel).
+  { intros ts0 k Hk. destruct (comps_total (S (length ts0)) ts0 (le_n _)) as [N _]. destruct (comps (S (length ts0)) ts0) as [p|e]; cbn [rbind]; [apply Hk|congruence]. }
+  assert (SR : forall k id r, section_rest k id r <> Err PFuel).
+  { intros k id r. unfold section_rest. destruct r as [|[t|e] r']; try apply expect_newline_not_fuel. destruct t; try apply expect_newline_not_fuel.
+    apply C. intros p. apply expect_newline_not_fuel. }
+  unfold parse_line. destruct ts as [|[t|e] r]; try discriminate.
+  destruct t; try discriminate; try (apply C; intros p; apply expect_newline_not_fuel).
+  - destruct r as [|[t2|e2] r']; try apply unexpected_not_fuel. destruct t2; try apply unexpected_not_fuel. apply SR.
+  - destruct r as [|[t2|e2] r']; try apply SR. destruct t2; apply SR.
+  - destruct (scoped_id_props r) as [N _]. destruct (scoped_id r) as [q|e]; cbn [rbind]; [apply expect_newline_not_fuel|congruence].
+Qed.
+(* the comment parser always returns a comment or a syntax/lexical error: it never runs out of steps *)
+Theorem parse_comment_total lines : parse_comment lines <> Err PFuel.
+Proof.
+  unfold parse_comment. generalize (COverview []) doc0. induction (map lex_line lines) as [|ts rest IH]; intros c d; cbn [parse_lines]; [discriminate|].
+  assert (K : rbind (parse_line ts) (fun pl => match pl with
+        | PMsg m => match c with COverview l => parse_lines rest (COverview (l ++ [m])) d | CTag k id il l => parse_lines rest (CTag k id il (l ++ [m])) d | CAfterSee => Err PSyntax end
+        | PTag k id il => parse_lines rest (CTag k id il []) (dflush c d)
+        | PSee g ids => parse_lines rest CAfterSee (add_see (dflush c d) g ids) end) <> Err PFuel).
+  { pose proof (parse_line_total ts) as T. destruct (parse_line ts) as [pl|e]; cbn [rbind]; [|congruence].
+    destruct pl as [m|k id il|g ids]; [destruct c; try apply IH; discriminate|apply IH|apply IH]. }
+  destruct c; try exact K. destruct (starts_message ts); [discriminate|exact K].
+Qed.
